@@ -21,6 +21,7 @@ SYS = {
     'DFSR': ('dfsr', 'reg'), 'DFAR': ('dfar', 'int'), 'HDFAR': ('hdfar', 'int'), 'HPFAR': ('hpfar', 'reg'),
     'TTBCR': ('ttbcr', 'reg'), 'DACR': ('dacr', 'reg'), 'PRRR': ('prrr', 'reg'), 'NMRR': ('nmrr', 'reg'),
     'FCSEIDR': ('fcseidr', 'reg'), 'MPUIR': ('mpuir', 'reg'), 'TEECR': ('teecr', 'reg'), 'HDCR': ('hdcr', 'reg'),
+    'JMCR': ('jmcr', 'reg'),
 }
 SYS64 = {'TTBR0': 'ttbr0_64', 'TTBR1': 'ttbr1_64'}      # low word modelled, high word must not change
 MPU = [('DRSR', 'drsrs', 'reg'), ('DRBAR', 'drbars', 'int'), ('DRACR', 'dracrs', 'reg')]
